@@ -34,8 +34,9 @@ BOUNDS_TEXT = ("three exhaustive families of event histories from a fresh Team, 
                "step coordinator, step 1st busy worker, step 2nd busy worker}; `eager` <= eager events over the same "
                "events with the coordinator performing every item as soon as it is queued (the LockWorker "
                "discipline; no 'step coordinator' event); `sched` <= sched events over {do, quit, change limit, step "
-               "coordinator, step 1st/2nd busy worker} with at most one raising task (which one is symbolic).  "
-               "history/eager: every task symbolically succeeds or raises, every n symbolic in 0..2.  Limit symbolic "
+               "coordinator, step 1st/2nd busy worker} with at most one failing task (which one, and whether it raises an Exception or a BaseException "
+               "that is not an Exception, is symbolic).  history/eager: every task symbolically succeeds, raises an "
+               "Exception or raises a non-Exception BaseException; every n symbolic in 0..2.  Limit symbolic "
                "in 1..2 (initial value symbolic; the change event switches to the other value)")
 OUTSIDE = ["real OS threads: ThreadWorker, LockWorker, ThreadPool (threadpool.py: callInThreadWithCallback, stop, "
            "adjustPoolsize) and their locking are not executed; the coordinator and all workers are twisted's own "
@@ -62,6 +63,10 @@ DO, GROW, SHRINK, QUIT, LIMIT, STEPC, STEPW0, STEPW1 = range(8)
 
 class _TaskError(Exception):
     pass
+
+
+class _TaskAbort(BaseException):
+    """a task failure that is NOT an Exception (like KeyboardInterrupt / asyncio.CancelledError)"""
 
 
 class _HWorker(_memory.MemoryWorker):
@@ -116,7 +121,7 @@ class _World:
 
     def logexc(self):
         e = sys.exc_info()[1]
-        if not isinstance(e, _TaskError):
+        if not isinstance(e, (_TaskError, _TaskAbort)):
             raise  # never swallow anything but the task's own error (CrossHair control flow!)
         self.logged += 1
 
@@ -129,9 +134,13 @@ class _World:
             if self.runs[i] > 1:
                 self.flag("task ran twice")
             self.running = False
-            if flag == 1:    # decided by the solver here, when the task runs
+            k = flag()       # 0 ok / 1 raises an Exception / 2 raises a BaseException that is not an
+            if k == 1:       # Exception: decided by the solver here, when the task runs
                 self.raised += 1
                 raise _TaskError()
+            if k == 2:
+                self.raised += 1
+                raise _TaskAbort()
         return run
 
     def ready(self):
@@ -163,14 +172,17 @@ class _World:
             self.flag("negative statistics")
 
 
-class _Eq:
-    """lazy `a == b` usable as a task outcome flag: `flag == 1` is decided when the task runs"""
+def _outcome(p):
+    return lambda: p
 
-    def __init__(self, a, b_):
-        self.a, self.b = a, b_
 
-    def __eq__(self, one):
-        return self.a == self.b
+def _one_raiser(ti, rk, rb):
+    """task ti fails iff it is the rk-th task; rb chooses the kind of failure (both decided lazily)"""
+    def kind():
+        if ti == rk:
+            return 2 if rb else 1
+        return 0
+    return kind
 
 
 def _refused(world, call):
@@ -182,7 +194,7 @@ def _refused(world, call):
     return False
 
 
-def _run(lim0, ops, ps, eager=False, one_raiser=None, nosize=False):
+def _run(lim0, ops, ps, eager=False, one_raiser=None, nosize=False, raiser_base=False):
     """eager: the coordinator performs every item as soon as it is queued (the discipline of the real
     LockWorker with a single calling thread) and STEPC is not an event.  one_raiser: index of the only
     task that raises (instead of one outcome per task)."""
@@ -202,7 +214,7 @@ def _run(lim0, ops, ps, eager=False, one_raiser=None, nosize=False):
                 if quit_called:
                     # refused, nothing queued: a no-op event (path ends, see ASSUMPTIONS)
                     if o == DO:
-                        return _refused(world, lambda: team.do(world.task(0, 0)))
+                        return _refused(world, lambda: team.do(world.task(0, _outcome(0))))
                     if o == GROW:
                         return _refused(world, lambda: team.grow(p))
                     if o == SHRINK:
@@ -212,9 +224,9 @@ def _run(lim0, ops, ps, eager=False, one_raiser=None, nosize=False):
                     world.runs.append(0)
                     ti = len(world.runs) - 1
                     if one_raiser is None:
-                        team.do(world.task(ti, p))
+                        team.do(world.task(ti, _outcome(p)))
                     else:
-                        team.do(world.task(ti, _Eq(ti, one_raiser)))
+                        team.do(world.task(ti, _one_raiser(ti, one_raiser, raiser_base)))
                 elif o == GROW:
                     team.grow(p)
                 elif o == SHRINK:
@@ -279,7 +291,7 @@ def _run(lim0, ops, ps, eager=False, one_raiser=None, nosize=False):
                     return False
             if not world.coord._quit.isSet or world.coord._pending != [NoMoreWork]:
                 return False
-            if not _refused(world, lambda: team.do(world.task(0, 0))):
+            if not _refused(world, lambda: team.do(world.task(0, _outcome(0)))):
                 return False
             if not _refused(world, lambda: team.grow(1)):
                 return False
@@ -299,6 +311,8 @@ def _run(lim0, ops, ps, eager=False, one_raiser=None, nosize=False):
             if world.coord._quit.isSet or world.coord._pending:
                 return False
         return True
+    except (_TaskAbort, _TaskError):
+        return False    # a task's failure escaped the Team (out of a worker's perform())
     finally:
         _pool.LockWorker, _pool.ThreadWorker, _pool.err = saved
 
@@ -331,14 +345,14 @@ def eager(lim0: int, n: int, o0: int, o1: int, o2: int, o3: int, o4: int, o5: in
 
 
 def sched(lim0: int, n: int, o0: int, o1: int, o2: int, o3: int, o4: int, o5: int, o6: int, o7: int,
-          rk: int) -> bool:
+          rk: int, rb: bool) -> bool:
     """
     pre: 1 <= lim0 <= 2 and 0 <= n <= B['sched'] and -1 <= rk <= 7
     pre: 0 <= o0 <= 7 and 0 <= o1 <= 7 and 0 <= o2 <= 7 and 0 <= o3 <= 7
     pre: 0 <= o4 <= 7 and 0 <= o5 <= 7 and 0 <= o6 <= 7 and 0 <= o7 <= 7
     post: _
     """
-    return _run(lim0, _ops(n, [o0, o1, o2, o3, o4, o5, o6, o7]), [0] * 8, one_raiser=rk, nosize=True)
+    return _run(lim0, _ops(n, [o0, o1, o2, o3, o4, o5, o6, o7]), [0] * 8, one_raiser=rk, nosize=True, raiser_base=rb)
 
 
 def _ops(n, os_):
@@ -387,5 +401,6 @@ VECTORS = {
                 (1, 8, 0, 1, 2, 4, 5, 5, 5, 6, 1, 2, 2, 0, 0, 0, 0, 0), (2, 0, 0, 0, 0, 0, 0, 0, 0, 0, 0, 0, 0, 0, 0, 0, 0, 0)],
     "eager": [(2, 6, 1, 0, 0, 0, 6, 7, 0, 0, 2, 1, 0, 0, 0, 0, 0, 0), (1, 6, 0, 0, 2, 6, 6, 3, 0, 0, 1, 1, 2, 0, 0, 0, 0, 0),
               (1, 4, 4, 2, 0, 6, 0, 0, 0, 0, 0, 1, 0, 0, 0, 0, 0, 0)],
-    "sched": [(1, 7, 0, 0, 5, 5, 6, 5, 3, 0, 1), (2, 6, 0, 0, 5, 5, 7, 6, 0, 0, -1)],
+    "sched": [(1, 7, 0, 0, 5, 5, 6, 5, 3, 0, 1, False), (2, 6, 0, 0, 5, 5, 7, 6, 0, 0, -1, False),
+              (1, 7, 0, 0, 5, 5, 6, 5, 3, 0, 0, True)],
 }
